@@ -33,7 +33,7 @@ func init() {
 		Findings: map[string]func(v *mon.Violation) bool{},
 		Floors: func(tier string, cover map[string]int64, evals int64) []string {
 			var out []string
-			for _, k := range []string{"lattice:slice/last", "lattice:slice/inner", "lattice:nth", "lattice:union", "frag:descent/inner", "frag:filter/last", "frag:filter/inner", "frag:slice/inner", "frag:wild/inner", "frag:union/inner", "order-pairs-checked", "neg-step"} {
+			for _, k := range []string{"lattice:slice/last", "lattice:slice/inner", "lattice:nth", "lattice:union", "frag:descent/inner", "frag:filter/last", "frag:filter/inner", "frag:slice/inner", "frag:wild/inner", "frag:union/inner", "order-pairs-checked", "neg-step", "lattice:extreme-magnitudes"} {
 				if cover[k] == 0 {
 					out = append(out, "coverage class never reached: "+k)
 				}
@@ -281,6 +281,40 @@ func run(c *mon.Ctx) {
 				ck.check(jpref.Path{jpspec.Union(a, b), jpspec.Child("k")}, maps, true)
 				ck.check(jpref.Path{jpspec.Root(), jpspec.Union(a, "x", b), jpspec.Nth(-1)}, arrs, true)
 			}
+		}
+	}
+	// (a') magnitudes at and near the int limits as slice bounds and steps, indexes and union members
+	for _, L := range []int{0, 1, 3} {
+		flat := make([]any, L)
+		maps := make([]any, L)
+		arrs := make([]any, L)
+		for i := 0; i < L; i++ {
+			flat[i] = int64(100 + i)
+			maps[i] = map[string]any{"k": int64(200 + i), "z": int64(300 + i)}
+			arrs[i] = []any{int64(400 + 2*i), int64(401 + 2*i)}
+		}
+		for _, sl := range jpspec.ExtremeSlices() {
+			idx++
+			if !c.Mine(idx) {
+				continue
+			}
+			f := jpspec.Slice(sl...)
+			c.Cover("lattice:extreme-magnitudes")
+			ck.check(jpref.Path{jpspec.Root(), f}, flat, true)
+			ck.check(jpref.Path{jpspec.Root(), f, jpspec.Child("k")}, maps, true)
+			ck.check(jpref.Path{jpspec.Root(), f, jpspec.Wild()}, arrs, true)
+			ck.check(jpref.Path{jpspec.Root(), jpspec.Descent(), f}, arrs, true)
+		}
+		for _, a := range jpspec.ExtremeInts {
+			idx++
+			if !c.Mine(idx) {
+				continue
+			}
+			c.Cover("lattice:extreme-magnitudes")
+			ck.check(jpref.Path{jpspec.Root(), jpspec.Nth(a)}, flat, true)
+			ck.check(jpref.Path{jpspec.Nth(a), jpspec.Child("k")}, maps, true)
+			ck.check(jpref.Path{jpspec.Root(), jpspec.Union(a, 0)}, flat, true)
+			ck.check(jpref.Path{jpspec.Root(), jpspec.Union(0, a, -1), jpspec.Nth(-1)}, arrs, true)
 		}
 	}
 	// (b) random paths over unique-leaf trees
